@@ -6,6 +6,7 @@ import Ktm.DriverMetrics
 import Ktm.DriverGrid
 import Ktm.DriverRandom
 import Ktm.DriverSync
+import Ktm.DriverSpace
 /-! Dispatcher of the line protocol: every line carries a `suite` field; `op = init` (re)starts the
     suite's state. -/
 open Lean
@@ -40,6 +41,7 @@ def handleLine (st : DSt) (line : String) : DSt × String :=
       let (s', out) := DriverRandom.handle cur j
       (match s' with | some s => .rnd s | Option.none => st, out)
     | "sync" => (st, DriverSync.handle j)
+    | "programs" => (st, DriverSpace.handle j)
     | "transforms" => (st, DriverTF.handle j)
     | "metrics" => (st, DriverMetrics.handle j)
     | s => (st, s!"bad-suite {s}")
